@@ -94,6 +94,7 @@ type limCase struct {
 	Procs    int
 	Timed    bool // after the first Wait() the idle Limiter is also waited on with a timeout (returns at once)
 	Twin     bool // a second Limiter with the same limit argument is kept saturated for the whole scenario
+	Warmup   bool // the Limiter runs one function to completion (Go, Wait) before the panic handler is configured: a setter called after first use
 	LogDepth int  // > 0: the configured handler is the library's own goz.LogPanic(logger, LogDepth); the logger must receive one line per panic naming the value
 	WaitForm int  // how "Wait() without timeout" is spelled: 0 l.Wait(), 1 l.Wait(empty...) with an empty non-nil slice, 2 with a nil slice
 	Churn    int  // this many functions that return at once are pushed through the Limiter before the final saturation probe (counters inside the Limiter must not drift)
@@ -107,6 +108,7 @@ func gen(t *rapid.T) (c limCase) {
 		c.Expire = rapid.IntRange(0, 2).Draw(t, "expire") == 0
 		c.WaitForm = rapid.SampledFrom([]int{0, 0, 1, 2}).Draw(t, "waitForm")
 		c.LogDepth = rapid.SampledFrom([]int{0, 0, 0, 0, 1, 5, 33, 64, 500}).Draw(t, "logDepth")
+		c.Warmup = rapid.IntRange(0, 3).Draw(t, "warmup") == 0
 		c.Churn = rapid.SampledFrom([]int{0, 0, 0, 0, 0, 0, 300, 300, 300, 5000, 66000, 70000}).Draw(t, "churn")
 	}()
 	n := rapid.IntRange(1, 24).Draw(t, "ntasks")
@@ -456,6 +458,27 @@ func run(c limCase, r *pb.Rec) error {
 	l := goz.NewLimiter(c.Limit)
 	tot := len(c.Tasks) + 2*n
 	w := &world{n: n, execs: make([]int32, tot), gates: make([]chan struct{}, tot), parked: make([]int32, tot), opened: make([]int32, tot), ptrs: make([]*tagErr, tot)}
+	if c.Warmup {
+		// first use before configuration: the Limiter is idle again when the handler is set, so the setter does not
+		// race with any worker
+		var ran int32
+		l.Go(func() { atomic.StoreInt32(&ran, 1) })
+		wd := make(chan struct{})
+		go func() { waitUntimed(l, c.WaitForm); close(wd) }()
+		if err := awaitWait(wd, "Wait() after the first function"); err != nil {
+			return err
+		}
+		if atomic.LoadInt32(&ran) != 1 {
+			return fmt.Errorf("Wait() returned before the first submitted function ran")
+		}
+		for deadline := time.Now().Add(20 * time.Second); limiterWorkers() > 0; {
+			if time.Now().After(deadline) {
+				return inconclusive{"the worker of the warm-up function did not exit within 20s"}
+			}
+			runtime.Gosched()
+		}
+		r.ClassIf(c.Handler, "panic handler configured after the Limiter was first used")
+	}
 	logged := &logSink{}
 	if c.Handler && c.LogDepth > 0 {
 		l.SetPanicHandler(goz.LogPanic(logged, c.LogDepth))
@@ -565,7 +588,7 @@ func run(c limCase, r *pb.Rec) error {
 		lines := logged.lines()
 		used := make([]bool, len(lines))
 		for _, want := range wantPanics {
-			text := fmt.Sprintf("panic: %v", want)
+			text := fmt.Sprintf("panic: %v  Traceback:", want) // up to the delimiter: "p1" must not claim the line of "p14"
 			found := false
 			for j, ln := range lines {
 				if !used[j] && strings.HasPrefix(ln, text) {
@@ -811,7 +834,7 @@ func describe(vs []any) string {
 func TestLimiter(t *testing.T) {
 	st := pb.Stats("limiter")
 	st.SetRule("scenarios: limit -2..6 (below 1 => 3), 1..24 functions that return / yield / park on a harness gate / panic (before or after the gate), drawn gate release order, with or without panic handler, GOMAXPROCS 1..16; the harness releases one gate at a time, each time from a quiescent state, and after Wait() submits n more parked functions that must all run concurrently; monitors: concurrency never above n, exactly-once execution, Wait() only after all finished, handler receives every panic value itself (strings, pointers by identity, runtime faults by type and message), an expired timed Wait followed by idle and reuse (plain mode), no slot leaked (state-based: submitter parked in the Limiter's channel send while fewer than n functions hold slots); schedules inside the Limiter are sampled, not owned; non-trivial = a panic followed by a saturation phase")
-	st.Require("second Limiter saturated alongside", "timed Wait on the idle Limiter", "handler checked against a fault raised by the runtime", "nil func submitted", "library LogPanic handler with a depth above 32", "function ended by runtime.Goexit", "more than 65536 functions completed on one Limiter before the saturation probe", "Wait called with an empty non-nil duration slice", "timed Wait expired while functions ran, Limiter reused after going idle", "saturated: submitter blocked with all slots held", "panics raised", "limit below 1 (default 3)", "panic without handler", "limit reached")
+	st.Require("second Limiter saturated alongside", "timed Wait on the idle Limiter", "handler checked against a fault raised by the runtime", "nil func submitted", "panic handler configured after the Limiter was first used", "library LogPanic handler with a depth above 32", "function ended by runtime.Goexit", "more than 65536 functions completed on one Limiter before the saturation probe", "Wait called with an empty non-nil duration slice", "timed Wait expired while functions ran, Limiter reused after going idle", "saturated: submitter blocked with all slots held", "panics raised", "limit below 1 (default 3)", "panic without handler", "limit reached")
 	// the default panic handler prints to stdout: keep the test output clean (swapped once, not per case)
 	if dn, err := os.OpenFile(os.DevNull, os.O_WRONLY, 0); err == nil {
 		old := os.Stdout
